@@ -473,7 +473,7 @@ theorem decode_prefix_safe_main (t : RawTriangle) (h : wf t = true) (n : Nat)
         (fun c hc' => ⟨hc c hc', cellIn_poolOf t c hc'⟩) none _ _ (by omega)
 
 theorem prefixSafe_take (t : RawTriangle) (h : ∀ c ∈ t, cellOk c = true) (k : Nat) :
-    Spec.prefixSafe t (t.take k) = true := by
+    Spec.C19.prefixSafe t (t.take k) = true := by
   have hlen : (t.take k).length ≤ t.length := by simp [List.length_take]; omega
   have htake : t.take (t.take k).length = t.take k := by
     rw [List.length_take]
@@ -481,7 +481,7 @@ theorem prefixSafe_take (t : RawTriangle) (h : ∀ c ∈ t, cellOk c = true) (k 
     · rw [Nat.min_eq_left hk]
     · rw [Nat.min_eq_right (by omega), List.take_of_length_le (Nat.le_refl _),
         List.take_of_length_le (by omega)]
-  simp only [Spec.prefixSafe, hlen, decide_true, Bool.true_and, htake]
+  simp only [Spec.C19.prefixSafe, hlen, decide_true, Bool.true_and, htake]
   exact roundTrip_self (t.take k) (fun c hc => h c (List.mem_of_mem_take hc))
 
 end Bermuda.Codec
